@@ -181,7 +181,7 @@ PROPS = {
             ('fairqueue', r'^FairQueue::poll_next$|^QueueInner::(insert|remove)$', A, None),
             ('reqrep', r'^ReqSocket::recv$', {'assert'}, None),
             ('reqrep', r'^RepSocket::recv$', {'assert', 'inv-entry', 'inv-end'}, None),
-            ('routing', r'^(RouterSocket|DealerSocket|PullSocket)::recv$', {'assert', 'inv-entry', 'inv-end'}, None),
+            ('routing', r'^(RouterSocket|DealerSocket|PullSocket|SubSocket|XPubSocket)::recv$', {'assert', 'inv-entry', 'inv-end'}, None),
         ],
         'kani': {},
         'assumptions': [
@@ -190,7 +190,7 @@ PROPS = {
             'fairqueue unit: the std Clone trait is shadowed by a stand-in whose contract is "a clone equals the original" (assumption on the key type), `io_stream.as_mut().poll_next(&mut cx)` is an assumed expression (Pin::as_mut), BinaryHeap is a bag, AtomicUsize tickets are arbitrary',
             'cancellation points are exactly the `.await`s (D2 removes them; the await-invariant is asserted immediately before the statement that contained each one)',
         ],
-        'not_covered': ['SubSocket::recv, XPubSocket::recv, proxy()', 'the decoder half (partial frames survive a dropped read) is C02'],
+        'not_covered': ['proxy() itself (select! expansion)', 'the decoder half (partial frames survive a dropped read) is C02'],
     },
     'C03': {
         'units': ['codec', 'handshake'],
